@@ -42,6 +42,9 @@ class Ctx:
     self.notes = []
     self._pool = None
     self._modname = 'props.' + pid.lower()
+    import tempfile
+    self.tmp = tempfile.mkdtemp(prefix='vfw-%s-' % pid, dir='/dev/shm' if os.path.isdir('/dev/shm') else None)
+    os.environ['VERIF_TMP'] = self.tmp
 
   @property
   def quick(self):
@@ -84,6 +87,8 @@ class Ctx:
     if self._pool is not None:
       self._pool.shutdown(wait=True, cancel_futures=True)
       self._pool = None
+    import shutil
+    shutil.rmtree(self.tmp, ignore_errors=True)
 
 
 def main(argv=None):
